@@ -181,5 +181,15 @@ def gen_history(rng, cfg=None):
                 u['api'] = 'lib'
                 u['reuse'] = True
         rounds.append({'edits': eds, 'update': u})
+    # a file that shares its name with a DIST entry of the same Manifest vanishes before some update
+    twins = []
+    for m in manifests:
+        names = set(e['path'] for e in m['entries'] if e.get('tag') == 'DIST')
+        for e in m['entries']:
+            if e.get('tag') in ('DATA', 'MISC', 'EBUILD') and e.get('path') in names:
+                twins.append(os.path.normpath(os.path.join(os.path.dirname(m['p']), e['path'])))
+    if twins and rng.random() < 0.6:
+        rnd = rng.choice(rounds)
+        rnd['edits'] = list(rnd['edits']) + [{'m': 'delete', 'p': rng.choice(twins)}]
     return {'order_key': '%016x' % rng.getrandbits(64), 'top': 'Manifest', 'tree': tree,
             'manifests': manifests, 'rounds': rounds}
